@@ -947,6 +947,7 @@ class SArr:
     def __imul__(self, o): return self._inplace(self * o)
     def __itruediv__(self, o): return self._inplace(self / o)
     def __ipow__(self, o): return self._inplace(self ** o)
+    def __imod__(self, o): return self._inplace(self % o)
     def __iand__(self, o): return self._inplace(self & o)
     def __ior__(self, o): return self._inplace(self | o)
 
